@@ -121,6 +121,11 @@ class Translate(BaseTranslateFilter, TranslatableFilter):
         plural = kwargs.pop("plural", None)
         n = _count(kwargs.get("count"))
 
+        if plural is not None and n is None:
+            # A pluralizable message is always looked up with ngettext or
+            # npgettext, which is how it is extracted. Count defaults to one.
+            n = 1
+
         if plural is not None and n is not None:
             plural = to_liquid_string(
                 plural,
@@ -445,7 +450,7 @@ class NPGetText(BaseTranslateFilter, TranslatableFilter):
 
 
 def _count(val: Any) -> int | None:
-    if val in (None, False, True):
+    if val is None or isinstance(val, bool):
         return None
     try:
         return int(val)
